@@ -49,6 +49,10 @@ def _proj():
         (Path(d) / "src" / "sub" / "report").write_text("#!/usr/bin/env python3\n" + triggers.T["magic.py"][3].replace("3975", "4907")
                                                          + "\n\ndef shout(x):\n    print(x)\n")
         (Path(d) / "src" / "sub" / "setup").write_text("#!/bin/sh\necho 3975\n")
+        # sources below an always-excluded directory name: excluded however they are reached (also when the target lies inside)
+        (Path(d) / "src" / "build" / "gen").mkdir(parents=True)
+        (Path(d) / "src" / "build" / "gen" / "made.py").write_text(triggers.T["magic.py"][3].replace("3975", "4999"))
+        (Path(d) / "src" / "build" / "gen" / "made2.py").write_text(triggers.T["nest.py"][3])
         _P["d"] = Path(d)
     return _P["d"]
 
@@ -105,7 +109,7 @@ def h_union(ctx):
     from src.orchestrator.core import Orchestrator
     d = _proj()
     allf = sorted(p for p in (d / "src").rglob("*") if p.is_file())
-    kind = ctx.pick("run", ("file-list", "directory", "directory-non-recursive"))
+    kind = ctx.pick("run", ("file-list", "directory", "directory-non-recursive", "directory-below-an-excluded-name"))
     ign.clear_ignore_parser_cache()
     if kind == "file-list":
         # membership bits for 8 of the files; the remaining ones are always in the list
@@ -114,6 +118,9 @@ def h_union(ctx):
             free |= {"printy.js", "srp.py", "strg1.py", "strg2.py"}
         chosen = [f for f in allf if (f.name not in free) or ctx.flag("in_" + f.name)]
         got = _per_file(Orchestrator(project_root=d).lint_files(chosen))
+    elif kind == "directory-below-an-excluded-name":
+        chosen = [f for f in allf if "build" in f.relative_to(d).parts]
+        got = _per_file(Orchestrator(project_root=d).lint_directory(d / "src" / "build" / "gen"))
     elif kind == "directory":
         chosen = allf
         got = _per_file(Orchestrator(project_root=d).lint_directory(d / "src"))
@@ -148,8 +155,8 @@ def h_cli_vs_api(ctx):
     from src.cli_main import cli
     d = _proj()
     cmd = ctx.pick("command", tuple(c for c in catalogue.linter_commands() if c != "file-placement"))
-    target = ctx.pick("target", ("directory", "file:dup1.py", "file:selfdup.py", "file:magic.py", "file:unwrap.rs", "file:nest.ts", "file:broken.py", "file:broken.ts", "subdir", "relative:tests/calc.ts", "relative:src/magic.ts"))
-    t = {"directory": d / "src", "subdir": d / "src" / "sub"}.get(target) or (d / target.split(":")[1] if target.startswith("relative:") else d / "src" / target.split(":")[1])
+    target = ctx.pick("target", ("directory", "file:dup1.py", "file:selfdup.py", "file:magic.py", "file:unwrap.rs", "file:nest.ts", "file:broken.py", "file:broken.ts", "subdir", "relative:tests/calc.ts", "relative:src/magic.ts", "excluded-subdir"))
+    t = {"directory": d / "src", "subdir": d / "src" / "sub", "excluded-subdir": d / "src" / "build" / "gen"}.get(target) or (d / target.split(":")[1] if target.startswith("relative:") else d / "src" / target.split(":")[1])
     cli_target, cwd0 = str(t), os.getcwd()
     if target.startswith("relative:"):      # the command line gets the path relative to the project directory (cwd), the library the absolute one
         cli_target = target.split(":")[1]
